@@ -216,3 +216,27 @@ def run_traces(ctx, sc, module, traces, name, nev, max_events=60000, invariants=
             total.depth = max(total.depth or 0, r.depth or 0)
     ctx.add_tlc(name if len(chunks) == 1 else '%s (%d acceptor runs)' % (name, len(chunks)), total)
     return printed
+
+
+def tlaps(sc, proof_module, deps, timeout=900):
+    """Run tlapm on spec/proofs/<proof_module>.tla (with the spec modules `deps` copied next to it) in a scratch directory.
+    Returns ('proved', n, seconds) | ('failed', text, seconds) | ('unavailable', reason, seconds).  A prover that is missing
+    or times out is 'unavailable' (noted in the evidence, TLC checks the same laws on the bounded model); an obligation
+    that fails is 'failed' (specification and proof have drifted apart: machinery failure for the caller)."""
+    d = sc.file('tlaps-' + proof_module)
+    os.makedirs(d, exist_ok=True)
+    for m in deps:
+        shutil.copy(os.path.join(SPEC, m + '.tla'), d)
+    shutil.copy(os.path.join(SPEC, 'proofs', proof_module + '.tla'), d)
+    t0 = time.time()
+    try:
+        p = subprocess.run(['tlapm', '--cleanfp', proof_module + '.tla'], cwd=d, stdout=subprocess.PIPE, stderr=subprocess.STDOUT,
+                           text=True, timeout=timeout)
+    except (OSError, subprocess.TimeoutExpired) as e:
+        return 'unavailable', type(e).__name__, time.time() - t0
+    m = re.search(r'All (\d+) obligations? proved', p.stdout)
+    if m:
+        return 'proved', int(m.group(1)), time.time() - t0
+    if re.search(r'obligations? failed', p.stdout):
+        return 'failed', p.stdout[-1500:], time.time() - t0
+    return 'unavailable', p.stdout[-200:].replace('\n', ' '), time.time() - t0
